@@ -6,10 +6,8 @@ import (
 	"google.golang.org/genproto/googleapis/api/annotations"
 	"google.golang.org/genproto/googleapis/api/serviceconfig"
 	"google.golang.org/grpc"
-	rpb "google.golang.org/grpc/reflection/grpc_reflection_v1alpha"
 	"google.golang.org/protobuf/proto"
 	"google.golang.org/protobuf/reflect/protoreflect"
-	"google.golang.org/protobuf/types/descriptorpb"
 	"google.golang.org/protobuf/types/dynamicpb"
 )
 
@@ -79,67 +77,6 @@ func VerifH_registry_snapshot() {
 	}
 }
 
-// ---- the two services of the registration harness (DESIGN C11 "service shapes") -----------------
-//
-//	vf.A.M1: GET /v1/xx/yy                      vf.B.M1: custom "*" /v1/xx   (kind-* on an interior node)
-//	vf.A.M2: GET /v1/a2/{f} + POST /v1/a2b      vf.B.M2: GET /v1/{f}
-type vfMethodSpec struct {
-	name  string
-	verb  string
-	tmpl  string
-	extra []vfRule // additional bindings (m unused)
-}
-
-type vfSvcSpec struct {
-	full    string
-	file    string
-	reqName string
-	methods []vfMethodSpec
-}
-
-var vfSvcA = vfSvcSpec{full: "vf.A", file: "vfa.proto", reqName: "ReqA", methods: []vfMethodSpec{
-	{name: "M1", verb: "GET", tmpl: "/v1/xx/yy"},
-	{name: "M2", verb: "GET", tmpl: "/v1/a2/{f}", extra: []vfRule{{verb: "POST", tmpl: "/v1/a2b"}}},
-}}
-var vfSvcB = vfSvcSpec{full: "vf.B", file: "vfb.proto", reqName: "ReqB", methods: []vfMethodSpec{
-	{name: "M1", verb: "*", tmpl: "/v1/xx"},
-	{name: "M2", verb: "GET", tmpl: "/v1/{f}"},
-}}
-
-// vfSvcA2 / vfSvcB2: the same two services defined together in ONE proto file (a backend whose
-// file declares several services).
-var vfSvcA2 = vfSvcSpec{full: "vf.A", file: "vfab.proto", reqName: "ReqA", methods: vfSvcA.methods}
-var vfSvcB2 = vfSvcSpec{full: "vf.B", file: "vfab.proto", reqName: "ReqB", methods: vfSvcB.methods}
-
-func vfSpecsOfFile(file string) []vfSvcSpec {
-	var out []vfSvcSpec
-	for _, sp := range []vfSvcSpec{vfSvcA, vfSvcB, vfSvcA2, vfSvcB2} {
-		if sp.file == file {
-			out = append(out, sp)
-		}
-	}
-	return out
-}
-
-func vfSpecRule(ms vfMethodSpec) *annotations.HttpRule {
-	r := vfHTTPRule(ms.verb, ms.tmpl)
-	for _, e := range ms.extra {
-		r.AdditionalBindings = append(r.AdditionalBindings, vfHTTPRule(e.verb, e.tmpl))
-	}
-	return r
-}
-
-// vfFakeSvc builds the fake descriptors of a service spec.
-func vfFakeSvc(sp vfSvcSpec) *fakeSvc {
-	req := newFakeMD("vf."+sp.reqName, strField("f"), strField("g"))
-	resp := newFakeMD("vf.Resp"+sp.reqName, strField("r"))
-	svc := &fakeSvc{full: sp.full, methods: &fakeMethodList{}}
-	for _, ms := range sp.methods {
-		svc.methods.list = append(svc.methods.list, &fakeMethod{full: sp.full + "." + ms.name, in: req, out: resp, opts: &fakeOpts{rule: vfSpecRule(ms)}})
-	}
-	return svc
-}
-
 // vfFakeFileByName: what protodesc.NewFile yields under the engine for the descriptor named name.
 func vfFakeFileByName(name string) protoreflect.FileDescriptor {
 	specs := vfSpecsOfFile(name)
@@ -153,48 +90,6 @@ func vfFakeFileByName(name string) protoreflect.FileDescriptor {
 	return f
 }
 
-// vfFileBytes returns the serialized FileDescriptorProto of a service spec. Natively these are the
-// real bytes (descriptorpb + the google.api.http extension) that proto.Unmarshal / protodesc.NewFile
-// consume; under the engine the function is intercepted and returns the file name as opaque bytes.
-func vfFileBytes(file string) []byte {
-	specs := vfSpecsOfFile(file)
-	if len(specs) == 0 {
-		panic("verif: unknown descriptor " + file)
-	}
-	str := descriptorpb.FieldDescriptorProto_TYPE_STRING.Enum()
-	opt := descriptorpb.FieldDescriptorProto_LABEL_OPTIONAL.Enum()
-	fd := &descriptorpb.FileDescriptorProto{
-		Name:       proto.String(file),
-		Package:    proto.String("vf"),
-		Syntax:     proto.String("proto3"),
-		Dependency: []string{"google/api/annotations.proto"},
-	}
-	for _, sp := range specs {
-		fd.MessageType = append(fd.MessageType,
-			&descriptorpb.DescriptorProto{Name: proto.String(sp.reqName), Field: []*descriptorpb.FieldDescriptorProto{
-				{Name: proto.String("f"), JsonName: proto.String("f"), Number: proto.Int32(1), Type: str, Label: opt},
-				{Name: proto.String("g"), JsonName: proto.String("g"), Number: proto.Int32(2), Type: str, Label: opt},
-			}},
-			&descriptorpb.DescriptorProto{Name: proto.String("Resp" + sp.reqName), Field: []*descriptorpb.FieldDescriptorProto{
-				{Name: proto.String("r"), JsonName: proto.String("r"), Number: proto.Int32(1), Type: str, Label: opt},
-			}})
-		svc := &descriptorpb.ServiceDescriptorProto{Name: proto.String(sp.full[3:])}
-		for _, ms := range sp.methods {
-			mo := &descriptorpb.MethodOptions{}
-			proto.SetExtension(mo, annotations.E_Http, vfSpecRule(ms))
-			svc.Method = append(svc.Method, &descriptorpb.MethodDescriptorProto{
-				Name: proto.String(ms.name), InputType: proto.String(".vf." + sp.reqName), OutputType: proto.String(".vf.Resp" + sp.reqName), Options: mo,
-			})
-		}
-		fd.Service = append(fd.Service, svc)
-	}
-	b, err := proto.Marshal(fd)
-	if err != nil {
-		panic(err)
-	}
-	return b
-}
-
 // vfHash: under the engine crypto/sha256.New is replaced by this injective "hash".
 type vfHash struct {
 	hash.Hash
@@ -204,44 +99,6 @@ type vfHash struct {
 func (h *vfHash) Write(p []byte) (int, error) { h.buf = append(h.buf, p...); return len(p), nil }
 func (h *vfHash) Sum(b []byte) []byte         { return append(b, h.buf...) }
 func vfNewHash() hash.Hash                    { return &vfHash{} }
-
-// vfReflStream is the server-reflection conversation of a backend exposing the given services.
-type vfReflStream struct {
-	grpc.ClientStream
-	svcs    []vfSvcSpec
-	pending *rpb.ServerReflectionResponse
-	closed  bool
-}
-
-func (s *vfReflStream) Send(req *rpb.ServerReflectionRequest) error {
-	switch r := req.MessageRequest.(type) {
-	case *rpb.ServerReflectionRequest_ListServices:
-		var list []*rpb.ServiceResponse
-		for _, sp := range s.svcs {
-			list = append(list, &rpb.ServiceResponse{Name: sp.full})
-		}
-		s.pending = &rpb.ServerReflectionResponse{MessageResponse: &rpb.ServerReflectionResponse_ListServicesResponse{
-			ListServicesResponse: &rpb.ListServiceResponse{Service: list}}}
-	case *rpb.ServerReflectionRequest_FileContainingSymbol:
-		for _, sp := range s.svcs {
-			if sp.full == r.FileContainingSymbol {
-				s.pending = &rpb.ServerReflectionResponse{MessageResponse: &rpb.ServerReflectionResponse_FileDescriptorResponse{
-					FileDescriptorResponse: &rpb.FileDescriptorResponse{FileDescriptorProto: [][]byte{vfFileBytes(sp.file)}}}}
-			}
-		}
-	default:
-		s.pending = &rpb.ServerReflectionResponse{}
-	}
-	return nil
-}
-
-func (s *vfReflStream) Recv() (*rpb.ServerReflectionResponse, error) {
-	r := s.pending
-	s.pending = nil
-	return r, nil
-}
-
-func (s *vfReflStream) CloseSend() error { s.closed = true; return nil }
 
 // ---- the history harness --------------------------------------------------------------------------
 
